@@ -306,15 +306,15 @@ func init() {
 		}
 	}
 	intrinsics["bytes.Index"] = func(fr *frame, fn *ssa.Function, a []value) value {
-		needSym(a...)
+		
 		return symIndex(fr, bytesAsStr(a[0]), bytesAsStr(a[1]))
 	}
 	intrinsics["bytes.IndexByte"] = func(fr *frame, fn *ssa.Function, a []value) value {
-		needSym(a...)
+		
 		return symIndex(fr, bytesAsStr(a[0]), mkStr([]value{a[1]}))
 	}
 	intrinsics["bytes.LastIndex"] = func(fr *frame, fn *ssa.Function, a []value) value {
-		needSym(a...)
+		
 		return symLastIndex(fr, bytesAsStr(a[0]), bytesAsStr(a[1]))
 	}
 	intrinsics["bytes.Equal"] = func(fr *frame, fn *ssa.Function, a []value) value {
@@ -755,5 +755,65 @@ func init() {
 			return b
 		}
 		return append([]value{}, b...)
+	}
+}
+
+func init() {
+	// internal/bytealg is assembly: model its entry points (concrete or symbolic).
+	intrinsics["internal/bytealg.IndexByte"] = func(fr *frame, fn *ssa.Function, a []value) value {
+		return symIndex(fr, bytesAsStr(a[0]), mkStr([]value{a[1]}))
+	}
+	intrinsics["internal/bytealg.IndexByteString"] = func(fr *frame, fn *ssa.Function, a []value) value {
+		return symIndex(fr, a[0], mkStr([]value{a[1]}))
+	}
+	intrinsics["internal/bytealg.LastIndexByte"] = func(fr *frame, fn *ssa.Function, a []value) value {
+		return symLastIndex(fr, bytesAsStr(a[0]), mkStr([]value{a[1]}))
+	}
+	intrinsics["internal/bytealg.LastIndexByteString"] = func(fr *frame, fn *ssa.Function, a []value) value {
+		return symLastIndex(fr, a[0], mkStr([]value{a[1]}))
+	}
+	intrinsics["internal/bytealg.Index"] = func(fr *frame, fn *ssa.Function, a []value) value {
+		return symIndex(fr, bytesAsStr(a[0]), bytesAsStr(a[1]))
+	}
+	intrinsics["internal/bytealg.IndexString"] = func(fr *frame, fn *ssa.Function, a []value) value {
+		return symIndex(fr, a[0], a[1])
+	}
+	intrinsics["internal/bytealg.Equal"] = func(fr *frame, fn *ssa.Function, a []value) value {
+		return mkScalar(strEqTerm(fr.f(), bytesAsStr(a[0]), bytesAsStr(a[1])), types.Bool)
+	}
+	intrinsics["internal/bytealg.Compare"] = func(fr *frame, fn *ssa.Function, a []value) value {
+		return symCompare(fr, bytesAsStr(a[0]), bytesAsStr(a[1]))
+	}
+	intrinsics["internal/bytealg.Count"] = func(fr *frame, fn *ssa.Function, a []value) value {
+		s, sub := bytesAsStr(a[0]), mkStr([]value{a[1]})
+		cnt := 0
+		for {
+			k := symIndex(fr, s, sub)
+			if k < 0 {
+				return cnt
+			}
+			cnt++
+			s = strSlice(s, k+1, strLen(s))
+		}
+	}
+	intrinsics["internal/bytealg.CountString"] = func(fr *frame, fn *ssa.Function, a []value) value {
+		s, sub := a[0], mkStr([]value{a[1]})
+		cnt := 0
+		for {
+			k := symIndex(fr, s, sub)
+			if k < 0 {
+				return cnt
+			}
+			cnt++
+			s = strSlice(s, k+1, strLen(s))
+		}
+	}
+	intrinsics["internal/bytealg.MakeNoZero"] = func(fr *frame, fn *ssa.Function, a []value) value {
+		n := int(asInt64(a[0]))
+		out := make([]value, n)
+		for k := range out {
+			out[k] = uint8(0)
+		}
+		return out
 	}
 }
